@@ -546,6 +546,9 @@ func TestVerifC35MoQSession(t *testing.T) {
 		src.Avoid = kit.Known
 		su := c35DrawSetup(src)
 		sc := verifc35.GenMoQ(src, su.Transport == "quic")
+		if su.Transport == "webtransport" {
+			su.URLPath = src.MoQPath(sc.Flow)
+		}
 		js, _ := json.Marshal(struct {
 			Setup  c35Setup
 			Script verifc35.MoQScript
